@@ -140,7 +140,17 @@ namespace sim
 			return;
 		}
 
-		int num_methods = unsigned(m_out_buffer[1]);
+		// the buffer holds (signed) chars, don't sign-extend counts of 128 and
+		// above into a huge read size
+		int const num_methods = std::uint8_t(m_out_buffer[1]);
+
+		if (num_methods == 0)
+		{
+			// there is nothing to read and no method we could pick
+			std::printf("socks_connection::on_handshake1: client offers no auth-methods\n");
+			close_connection();
+			return;
+		}
 
 		// read list of auth-methods
 		asio::async_read(m_client_connection, asio::buffer(&m_out_buffer[0],
